@@ -172,10 +172,8 @@ func propC13(c *Check) {
 			// calls PowerRanking.Remove with the record's (unchanged) power
 			rmRe := regexp.MustCompile(`^PowerRanking\.Remove\(collections\.Join\(` + regexp.QuoteMeta(r.E(a)) + `\.Power, `)
 			for _, ci := range callsIn(f) {
-				for _, arg := range ci.Common().Args {
-					if arg == ssa.Value(a) && p.helperAlwaysCalls(f, ci, rmRe) {
-						rmCalls = append(rmCalls, ci)
-					}
+				if p.helperAlwaysCalls(f, ci, rmRe) {
+					rmCalls = append(rmCalls, ci)
 				}
 			}
 			check := func(rule, what string, target ssa.Instruction) {
@@ -196,6 +194,17 @@ func propC13(c *Check) {
 			for i, st := range fieldStoresOn(f, a, "Power") {
 				if key == "x/locking/keeper.Keeper.EndBlocker" {
 					continue
+				}
+				// what matters is that the old entry is gone when the changed record is stored: with the removal
+				// before the field store (in-place style) or between the field store and the record store
+				// the removal may also come between the field store and the store of the record: then every path from
+				// the field store to the commit passes it
+				if cps := p.commitPoints(f, st); len(cps) > 0 && len(rmCalls) > 0 {
+					if t, _ := (&PathSearch{Fn: f, From: st, AvoidInstr: instrSet(rmCalls), IsTarget: instrSet(cps)}).Find(); t == nil {
+						ld, _ := vf.loaded.At(st, a)
+						c.Held("R1", fmt.Sprintf("power-change#%d @ %s", i, key), p.InstrPos(st), "old ranking entry removed before the changed record is stored (loaded status "+en.Str(ld)+")")
+						continue
+					}
 				}
 				check("R1", fmt.Sprintf("power-change#%d", i), st)
 			}
@@ -309,9 +318,27 @@ func propC13(c *Check) {
 				continue
 			}
 			okAll := len(vf.ts.Allocs) > 0
+			// a record that is not (yet) ranked here is fine when every path from this insert to the store of the
+			// record first writes a ranked status (the record is committed as Pending/Active)
+			var rankedWrites, commits []ssa.Instruction
+			for _, w := range vf.ts.Writes() {
+				if w.To != 0 && w.To&^ranked == 0 {
+					rankedWrites = append(rankedWrites, w.Store)
+				}
+			}
+			for _, s2 := range p.StoreSites(f) {
+				if s2.Field.Name() == "Validators" && s2.Method == "Set" {
+					commits = append(commits, s2.Call)
+				}
+			}
+			becomesRanked := false
+			if len(rankedWrites) > 0 && len(commits) > 0 {
+				t, _ := (&PathSearch{Fn: f, From: s.Call, AvoidInstr: instrSet(rankedWrites), IsTarget: instrSet(commits)}).Find()
+				becomesRanked = t == nil
+			}
 			for _, a := range vf.ts.Allocs {
 				st, _ := vf.ts.At(s.Call, a)
-				if st&^ranked != 0 || st == 0 {
+				if (st&^ranked != 0 || st == 0) && !becomesRanked {
 					okAll = false
 					c.Violated("R3", cons, p.InstrPos(s.Call), "locking index written with status "+en.Str(st))
 				}
